@@ -940,8 +940,12 @@ func (lcp *LCPStateMachine) timeout() {
 		switch lcp.state {
 		case LCPStateClosing, LCPStateStopping:
 			lcp.sendTerminateRequest("Timeout")
-		case LCPStateReqSent, LCPStateAckRcvd, LCPStateAckSent:
+		case LCPStateReqSent, LCPStateAckSent:
 			lcp.sendConfigureRequest()
+		case LCPStateAckRcvd:
+			// RFC 1661 TO+ in Ack-Rcvd: the retransmitted request has not been acknowledged
+			lcp.sendConfigureRequest()
+			lcp.setState(LCPStateReqSent)
 		}
 	} else {
 		// Timeout with restart counter expired
